@@ -185,38 +185,22 @@ theorem history_eq_fresh (upper : Str → Str) (ops ops' : List EditOp)
     (∀ nm, ((R.byName nm).bind R.obj?).map Route.view = ((F.byName nm).bind F.obj?).map Route.view) ∧
     (∀ cenv rule, (R.byRule cenv rule).map (fun o => (o.bind R.obj?).map Route.view) =
       (F.byRule cenv rule).map (fun o => (o.bind F.obj?).map Route.view)) := by
-  have hR := editRun_inv upper ops hok
-  have hF := editRun_inv upper ops' hok'
-  obtain ⟨hroutes, hnames, hhooks⟩ := hsame
-  refine ⟨fun path ms => (answer_of_same_routes hR.inv hF.inv hroutes env hns path ms).1, ?_, hnames, ?_⟩
-  · intro path ms rule vs hsr hT
-    rcases (answer_of_same_routes hR.inv hF.inv hroutes env hns path ms).2 rule vs hsr with
-      ⟨h1, h2⟩ | ⟨rule', _, hpat, h1, h2⟩
-    · rw [h1, h2]
-    · have hmem : rule ∈ denote (Router.editRun upper ops).tree := (hR.inv.den _).mpr (specResolve_mem hsr).1
-      have hnt := hR.inv.notok rule hmem
-      rw [h1, h2, specHooks_index hR env rule.pat hnt (fun q hq => (hT q hq).1),
-        specHooks_index hF env rule.pat hnt (fun q hq => (hT q hq).2)]
-      congr 1
-      funext q
-      exact hhooks (patStr q)
-  · intro cenv rule
-    unfold Router.byRule
-    cases parseRule cenv rule with
-    | error e => rfl
-    | ok p =>
-      simp only
-      split
-      · rfl
-      · simp only [Except.map]
-        rw [matchPat_view hR.inv, matchPat_view hF.inv, hroutes]
+  exact answers_of_same_survivors (editRun_inv upper ops hok) (editRun_inv upper ops' hok') hsame env hns
 
-/- OPEN: theorem rebuild_same_survivors — for every router state `R` reached by a history, the
-   plain registration of its survivors (one `add` per method of every route of `R.routes` in table
-   order, one more `add` per name, one `add_hook` per slot of every pair of `R.hooks`) is a history
-   `ops'` with `SameSurvivors R (Router.editRun upper ops')`.  Not proved in Lean (a fold over the
-   three indexes with `EInv`); the correspondence check rebuilds such a router from the survivors
-   on the real code for every history it plays and compares every probe. -/
+/- OPEN: theorem fresh_same_survivors (upper : Str → Str) (ops : List EditOp)
+      (hok : ∀ op ∈ ops, EditOK op) (hT : ∀ ps, ¬ taintRun ops ps) :
+      let R := Router.editRun upper ops
+      EInv R.fresh (fun _ => False) ∧ SameSurvivors R R.fresh
+   `Router.fresh` (`Model/RouterEdit.lean`, section 11) registers the survivors of `R` one by one on
+   a new router (post-parse halves of `add` / `add_hook`).  With it,
+   `answers_of_same_survivors` (`Lemmas/RouterEditMaps.lean`, the general form of
+   `history_eq_fresh` for any two states satisfying the invariant) gives
+   `resolve R p = resolve R.fresh p` literally.  Not proved in Lean: it needs "every registration of
+   a survivor is accepted" (no filter clash among patterns of one well-formed tree, no dead
+   branches in the tree being built) as a fold over the three indexes.  Covered instead by the
+   correspondence check on both sides: the driver compares `R` with `R.fresh` (op `FS`: answers,
+   delivered hooks, every name, the routes index) for every history it plays, the harness compares
+   the edited real application with a real one rebuilt from the survivors. -/
 
 /-- **Route hooks fire for exactly the matched routes whose pattern extends the hook's, outermost
 first, with the matched path prefix.**  When `resolve` finds a handler, the plain matcher selects
